@@ -5,6 +5,7 @@ import (
 	"context"
 	"errors"
 	"fmt"
+	"github.com/streamingfast/substreams/block"
 
 	"github.com/streamingfast/bstream"
 
@@ -270,6 +271,30 @@ func evalPlan(cs Case) (*core.Fail, bool) {
 			}
 			if r.StartBlock%seg != 0 && idx != sg.FirstIndex() {
 				return core.Failf("job-range-not-whole-segment", "%s: segment %d is %s", desc(), idx, r), true
+			}
+		}
+		// --- no gap: the segments handed to jobs cover every block that has to be back-filled (the store range and the
+		// range whose outputs are produced), and nothing at or above the hand-off
+		covered := map[uint64]bool{}
+		for idx := sg.FirstIndex(); idx <= sg.LastIndex(); idx++ {
+			r := sg.Range(idx)
+			for b := r.StartBlock; b < r.ExclusiveEndBlock; b++ {
+				covered[b] = true
+			}
+		}
+		for name, r := range map[string]*block.Range{"stores": p.BuildStores, "write": p.WriteExecOut, "read": p.ReadExecOut} {
+			if r == nil {
+				continue
+			}
+			for b := r.StartBlock; b < r.ExclusiveEndBlock; b++ {
+				if !covered[b] {
+					return core.Failf("job-segments-do-not-cover:"+name, "%s: block %d of the %s range %s lies in no segment handed to jobs (segments %d..%d from %s)", desc(), b, name, r, sg.FirstIndex(), sg.LastIndex(), sg.Range(sg.FirstIndex())), true
+				}
+			}
+		}
+		for b := range covered {
+			if b >= H {
+				return core.Failf("job-segments-beyond-handoff", "%s: block %d is handed to a segment job", desc(), b), true
 			}
 		}
 		if p.BuildStores != nil {
